@@ -1,4 +1,4 @@
-(** The regenerated bodies of the module-level functions of sorted_array_utils.py (Gen/UtilsGlue.v), run by the
+(** [the search dispatcher only; split from GlueUtilsProofs.v so that C10 does not depend on the other helpers] The regenerated bodies of the module-level functions of sorted_array_utils.py (Gen/UtilsGlue.v), run by the
     function-level interpreter of Model/GlueFun.v with the leaves of Model/GlueLeaves.v, against the hand-written
     models of Model/SortedUtils.v and Model/Search.v.
 
@@ -63,39 +63,15 @@ Ltac fn_enter f :=
   change (assoc f utils_functions) with b.
 
 (** ---------------- C17 ---------------- *)
-Lemma glue_integral : forall x y r,
-  outcome_arr (call_fun utils_callf array_methf no_apply no_pow utils_functions "integral"
-     [("x", VArr x); ("y", VArr y); ("method", VStrV (rule_name r))]) = integral x y r.
+
+(** ---------------- C10 ---------------- *)
+Lemma glue_find_dispatch : forall x lk s fill,
+  outcome_idx (call_fun utils_callf array_methf no_apply no_pow utils_functions "find_closest_element_indices_to_values"
+     [("x", VArr x); ("lookup", VArr lk); ("strategy", VStrV (strategy_name s)); ("fill_not_valid", VBoolV fill)])
+  = find_indices x lk s fill.
 Proof.
-  intros x y r. destruct r; fn_enter "integral"; fn_run; reflexivity.
+  intros x lk s fill.
+  destruct s; unfold find_indices; fn_enter "find_closest_element_indices_to_values"; fn_run; reflexivity.
 Qed.
 
-Lemma glue_integral_rules : forall x y, length x = length y ->
-  outcome_arr (call_fun utils_callf array_methf no_apply no_pow utils_functions "rectangle_integral" [("x", VArr x); ("y", VArr y)])
-    = Ok (rectangle_integral x y) /\
-  outcome_arr (call_fun utils_callf array_methf no_apply no_pow utils_functions "trapezoid_integral" [("x", VArr x); ("y", VArr y)])
-    = Ok (trapezoid_integral x y).
-Proof.
-  intros x y Hl.
-  split.
-  - fn_enter "rectangle_integral". fn_run.
-    f_equal. apply rect_zip. exact Hl.
-  - fn_enter "trapezoid_integral". fn_run.
-    f_equal. apply trap_zip. exact Hl.
-Qed.
-
-Lemma glue_append_one_sample : forall x y p, append_one_sample_defined x y = true ->
-  outcome_arr_pair (call_fun utils_callf array_methf no_apply no_pow utils_functions "append_one_sample"
-     [("x", VArr x); ("y", VArr y); ("make_periodic", VBoolV p)])
-  = Ok (append_one_sample x y p).
-Proof.
-  intros x y p Hd. unfold append_one_sample_defined in Hd. apply andb_true_iff in Hd. destruct Hd as [Hx Hy].
-  apply Nat.leb_le in Hx. apply Nat.leb_le in Hy.
-  assert (Hx1 : (1 <= length x)%nat) by lia.
-  assert (Hy0 : y <> []) by (intros ->; cbn [length] in Hy; lia).
-  destruct p; fn_enter "append_one_sample"; fn_run.
-  all: unfold append_one_sample; rewrite <- qz2_two; try rewrite (lastq_nthq y Hy0); reflexivity.
-Qed.
-Print Assumptions glue_append_one_sample.
-Print Assumptions glue_integral.
-Print Assumptions glue_integral_rules.
+Print Assumptions glue_find_dispatch.
